@@ -4,9 +4,15 @@ Ast.vos Ast.vok Ast.required_vos: Ast.v
 Config.vo Config.glob Config.v.beautified Config.required_vo: Config.v Ast.vo Generated.vo
 Config.vio: Config.v Ast.vio Generated.vio
 Config.vos Config.vok Config.required_vos: Config.v Ast.vos Generated.vos
-Extract.vo Extract.glob Extract.v.beautified Extract.required_vo: Extract.v Ast.vo Generated.vo Config.vo Model.vo HookSites.vo Known.vo
-Extract.vio: Extract.v Ast.vio Generated.vio Config.vio Model.vio HookSites.vio Known.vio
-Extract.vos Extract.vok Extract.required_vos: Extract.v Ast.vos Generated.vos Config.vos Model.vos HookSites.vos Known.vos
+Directives.vo Directives.glob Directives.v.beautified Directives.required_vo: Directives.v Ast.vo
+Directives.vio: Directives.v Ast.vio
+Directives.vos Directives.vok Directives.required_vos: Directives.v Ast.vos
+Erase.vo Erase.glob Erase.v.beautified Erase.required_vo: Erase.v Ast.vo Generated.vo HookSites.vo Directives.vo
+Erase.vio: Erase.v Ast.vio Generated.vio HookSites.vio Directives.vio
+Erase.vos Erase.vok Erase.required_vos: Erase.v Ast.vos Generated.vos HookSites.vos Directives.vos
+Extract.vo Extract.glob Extract.v.beautified Extract.required_vo: Extract.v Ast.vo Generated.vo Config.vo Model.vo HookSites.vo Known.vo Directives.vo Erase.vo
+Extract.vio: Extract.v Ast.vio Generated.vio Config.vio Model.vio HookSites.vio Known.vio Directives.vio Erase.vio
+Extract.vos Extract.vok Extract.required_vos: Extract.v Ast.vos Generated.vos Config.vos Model.vos HookSites.vos Known.vos Directives.vos Erase.vos
 Generated.vo Generated.glob Generated.v.beautified Generated.required_vo: Generated.v 
 Generated.vio: Generated.v 
 Generated.vos Generated.vok Generated.required_vos: Generated.v 
